@@ -175,8 +175,8 @@ func runC08(r *Rec) {
 	}
 
 	// ---------- C. lifecycle histories on the real msg server + EndBlocker
-	nHist := 6
-	steps := 60
+	nHist := 30
+	steps := 90
 	if r.Tier == "thorough" {
 		nHist, steps = 60, 120
 	}
